@@ -409,7 +409,9 @@ def find_mate_positions(ctx, oracle, want, max_n, budget_games):
                 continue
             seen.add(fen4(fen))
             ctx.count("finder_random_positions_solved")
-            d, ms = oracle.mate_in(fen, max_n)
+            d, ms = oracle.mate_in(fen, min(max_n, 2))
+            if not d and max_n > 2 and rng.random() < 0.04:
+                d, ms = oracle.mate_in(fen, max_n)         # mate in 3: exhaustive search is slow, sample
             if d:
                 res.append((fen, d, ms))
                 if len(res) >= want:
@@ -1075,7 +1077,7 @@ def plan_sessions(ctx, oracle, engines, harness_exe, traced):
     rng = ctx.rng
     q = ctx.quick
     endg = [random_endgame(rng, oracle) for _ in range(ctx.scale(24, 200))]
-    mates = find_mate_positions(ctx, oracle, ctx.scale(45, 500), ctx.scale(2, 3), ctx.scale(250, 4000))
+    mates = find_mate_positions(ctx, oracle, ctx.scale(45, 400), ctx.scale(2, 3), ctx.scale(250, 1500))
     m1 = mate_in_one_set(ctx, oracle, ctx.scale(90, 400))
     # harvest more mate-in-one positions of rare kinds from the random-play set
     kinds_seen = {}
